@@ -145,4 +145,10 @@ def specs_nof(tier):
     s.append((NF_, "unit_add", {"layout": ["boson"], "timeout_ms": t, "canary": True}))
     for lay in layouts_small[:3]:
         s.append((NF_, "unit_pow", {"layout": lay, "timeout_ms": t}))
+    B, L, S, F = "boson", "ladder", "spin", "fermion"
+    for old, new in (([(B, "a"), (F, "c")], [(B, "a"), (B, "b"), (S, "s"), (F, "c"), (F, "d")]), ([(F, "d")], [(B, "a"), (F, "c"), (F, "d")]), ([(B, "a")], [(B, "a")]),
+                     ([(L, "l"), (S, "s")], [(B, "a"), (L, "l"), (S, "s"), (F, "c")])):
+        s.append((NF_, "unit_expand_operators", {"old": old, "new": new, "timeout_ms": t}))
+    for a_ops, b_ops in (([(B, "a"), (F, "d")], [(B, "b"), (L, "l"), (F, "c")]), ([(B, "a")], [(B, "a")]), ([(S, "s")], [(B, "b"), (S, "s")]), ([(F, "c"), (F, "e")], [(F, "d")])):
+        s.append((NF_, "unit_combine_operators", {"a_ops": a_ops, "b_ops": b_ops, "timeout_ms": t}))
     return s
